@@ -252,6 +252,38 @@ def run(ctx):
                         got = float(ut.theory_BER(P, mod, M, "hard" if mod == "ppm" else None, ER=np.inf, amplify=False, r=r_, BW_el=BWel, R_L=RL, T=Tk, NF_el=NFel))
                         eq("utils.theory_BER=error-integral-on-model-levels-and-variances", got, ref, tol=6000000)
                         ctx.case(("receiver-shot-dominated", mod, it % 3, NFel > 0), {"P_avg": P, "T": Tk, "R_L": RL, "NF_el": NFel, "shot/thermal variance": float(S_t[1] / max(S_t[0], 1e-300))})
+    # agreement with the device models: the standard deviations PD hands to the generator for its thermal and shot currents are the model's
+    # (shot 2e*mu*B*R_L with mu = R_L*r*(P_sig + P_ASE) summed over both polarisations - what an EDFA output carries; thermal 4kB*T*B*R_L*Fn)
+    from ..rng_tap import tap
+    from opticomlib.devices import PD as _PD, EDFA as _EDFA
+    from opticomlib.typing import gv as _gv, optical_signal as _os
+    for it in range(12 if T else 6):
+        with warnings.catch_warnings():
+            warnings.simplefilter("ignore")
+            _gv(sps=8, R=10e9)
+        rs = np.random.RandomState(7000 + it)
+        npol_, n_ = 1 + it % 2, 256
+        sig_ = (rs.randn(npol_, n_) + 1j * rs.randn(npol_, n_)) * 3e-3 + 2e-2
+        nz_ = (rs.randn(npol_, n_) + 1j * rs.randn(npol_, n_)) * [3e-3, 1e-2, 3e-4][it % 3]
+        x_ = _os(sig_ if npol_ == 2 else sig_[0], nz_ if npol_ == 2 else nz_[0])
+        if it % 3 == 2:
+            np.random.seed(it)
+            x_ = _EDFA(_os(sig_[0] * 0.1), 20.0, 5.0)             # a two-polarisation field straight out of an amplifier
+        r_, Tk, RL, Fn_, idark = [1.0, 0.7][it % 2], 300.0, 50.0, [0.0, 3.0][it % 2], 1e-8
+        np.random.seed(50 + it)
+        with tap() as tp, deadline(60):
+            _PD(x_, 5e9, r_, Tk, RL, "thermal-shot", idark, Fn_)
+        scales = sorted(sc_ for (u_, sc_) in tp.rows() if sc_ is not None and sc_ != 1.0)
+        B_ = _gv.fs / 2
+        P_ = float(np.sum(np.mean(np.abs(np.atleast_2d(x_.signal)) ** 2, axis=-1)) + np.sum(np.mean(np.abs(np.atleast_2d(x_.noise)) ** 2, axis=-1)))
+        want_sh = math.sqrt(2 * QE * (r_ * P_ + idark) * B_)
+        want_th = math.sqrt(4 * KB * Tk * 10 ** (Fn_ / 10) * B_ / RL)
+        if len(scales) == 2:
+            got_sh, got_th = (scales[0], scales[1]) if abs(math.log(scales[0] / want_sh)) < abs(math.log(scales[1] / want_sh)) else (scales[1], scales[0])
+            eq("noise_variances=thermal+shot-monomials", got_sh ** 2 * RL ** 2, want_sh ** 2 * RL ** 2, tol=2000)
+            eq("noise_variances=thermal+shot-monomials", got_th ** 2 * RL ** 2, want_th ** 2 * RL ** 2, tol=2000)
+        ctx.case(("pd-agreement", npol_, it % 3), {"PD draws": {"std requested": scales, "model": [want_sh, want_th]}})
+    _gv.clean()
     # the statement puts the electrical noise figure on the thermal term only (as PD does): NF_el != 0
     for it in range(6):
         P, RL, Tk, BWel, NFel = -30.0 + it, 50.0, 300.0, 5e9, 3.0 + it
